@@ -43,12 +43,11 @@ KINDS = ["sum", "min", "max", "nonzero_counts", "density", "nonzero",
 def cases(draw, tier):
     kind = draw(st.sampled_from(KINDS))
     if kind in ("summarize", "stats"):
-        vk = draw(st.sampled_from(["count", "posint", "posdyadic"]))
+        vk = draw(st.sampled_from(["count", "posint", "posdyadic", "int",
+                                   "small"]))
     else:
         vk = draw(st.sampled_from(["int", "dyadic", "count"]))
     spec = draw(gen.table_specs(tier, values=vk, md=True, history=True))
-    spec["history"] = [o for o in spec["history"]
-                       if o["op"] not in ("scale",)]
     if kind in ("md_dataframe", "export_metadata", "summarize"):
         for key, ids in (("obs_md", spec["obs"]), ("samp_md", spec["samp"])):
             if draw(st.integers(0, 3)) != 0:
